@@ -152,12 +152,20 @@ def run_shard(ctx):
     d.loop(2500, 120000)
     wildcard_position_stratum(ctx, d, ctx.share(400, 16000))
     from jv import strata
+    if ctx.shard % 4 == 0:
+        strata.same_stat_probe(ctx, d.ws, 3)
     d.strict = True
     strata.operand_not_stratum(ctx, d, ctx.share(160, 6000))       # "no element spans two operands": $not followed by further operand items
     d.strict = False
+    # hits of several hundred instructions / straddling index boundaries of long listings: the reported text is still whole records
+    from jv.props import c11
+    c11.long_variable_stratum(ctx, d.ws, ctx.share(16, 300))
 
 
 def replay(ctx, case):
+    if case.get("same_stat"):
+        from jv import strata
+        return strata.same_stat_probe(ctx, real.Workspace(), 8, binary=bool(case.get("binary")))
     ws = real.Workspace()
     prep = dsl.prep_from_case(ws, case)
     if not prep.verify(ws):
